@@ -29,7 +29,7 @@ def main():
     a = ap.parse_args()
     dst = os.path.join(V, "seeded", a.name)
     os.makedirs(dst, exist_ok=True)
-    for f in os.listdir(a.src):
+    for f in ([] if os.path.abspath(a.src) == os.path.abspath(dst) else os.listdir(a.src)):
         p = os.path.join(a.src, f)
         if os.path.isdir(p):
             shutil.copytree(p, os.path.join(dst, f), dirs_exist_ok=True)
